@@ -57,6 +57,39 @@ pub fn check_program(ctx: &Ctx, name: &str, p: &Program, split: bool, use_cli: b
     if !undefined.is_empty() {
         acc.count("programs_with_an_undefined_label", 1);
     }
+    // (a label names the instruction that follows it; data, or the end of its segment or file, is none)
+    let names_instruction = |name: &str| -> bool {
+        p.lines.iter().enumerate().filter(|(_, l)| matches!(l, Line::Label(x) if x == name)).any(|(i, _)| {
+            for l in &p.lines[i + 1..] {
+                match l {
+                    Line::Ins(_) => return true,
+                    Line::Raw(r) if !r.trim().is_empty() && !r.trim_start().starts_with('#') && !r.trim_start().starts_with('.') => return true,
+                    Line::Data(_) | Line::SecData | Line::SecText => return false,
+                    _ => {}
+                }
+            }
+            false
+        })
+    };
+    let no_instruction: Vec<String> = p
+        .lines
+        .iter()
+        .filter_map(|l| match l {
+            Line::Ins(Ins::Branch { label, .. } | Ins::Jal { label, .. }) => Some(label.clone()),
+            _ => None,
+        })
+        .filter(|t| defs.contains_key(t) && !names_instruction(t))
+        .collect();
+    if !no_instruction.is_empty() && dups.is_empty() && undefined.is_empty() {
+        acc.count("programs_with_a_transfer_to_a_label_without_instruction", 1);
+        if a.cfg.is_ok() {
+            acc.violation(
+                format!("C16|{name}|silent|transfer-to-label-without-instruction"),
+                format!("{name}: `{}` is the target of a jump, branch or call but names no instruction (data, or the end of its segment, follows it); the analysis goes on without any error", no_instruction[0]),
+                replay.clone(),
+            );
+        }
+    }
     let label_fault = if !dups.is_empty() { Some(("duplicate-label", dups[0].clone())) } else if !undefined.is_empty() { Some(("undefined-label", undefined[0].clone())) } else { None };
     if let Some((what, label)) = &label_fault {
         let code = a.cfg.as_ref().err().map(|e| e.code.clone());
